@@ -129,14 +129,14 @@ def work(args):
                 return
             state['n'] += 1
             want = validate_every and (state['n'] == 1 or rng.random() < 1.0 / validate_every)
-            if res['sample'] is None or want:
-                m = e.path_model()
+            if res['sample'] is None or want or state['n'] in (2, 5, 17, 60):
+                m = e.path_model(diverse=rng)
                 if m is None:
                     return
                 vals = e.model_values(m)
-                if res['sample'] is None:
+                if res['sample'] is None or (len(vals) + len(e.choices) > len(res['sample']['model']) + len(res['sample']['choices']) and state['n'] < 200):
                     res['sample'] = {'shape': shape, 'model': {k: vals[k] for k in list(vals)[:24]}, 'choices': list(e.choices)[:40],
-                                     'observed': _jsonable(core.to_concrete([o for _, o in e.obs], m))[:6], 'assertions': e.labels[:12]}
+                                     'observed': _jsonable(core.to_concrete([o for _, o in e.obs], m))[:6], 'assertions': e.labels[:60]}
                 if want and not e.path_failed:
                     n = run_native(hmod, shape, vals, e.choices)
                     sym_obs = core.to_concrete([o for _, o in e.obs], m)
@@ -353,7 +353,21 @@ def report(pid, tier, seed, hmod, shapes, results, skipped, wall):
     n_unknown = tot('unknown')
     capped = [r['shape'] for r in results if r['capped']]
     cov = sorted({c for r in results for c in r['cov']})
-    samples = [r['sample'] for r in results if r['sample']][:5]
+    cands = [r['sample'] for r in results if r['sample']]
+    # prefer the richest samples (most symbolic inputs / choices), one per harness first
+    cands.sort(key=lambda x: -(len(x.get('model', {})) + len(x.get('choices', []))))
+    samples, seen_h = [], set()
+    for c in cands:
+        if c['shape']['h'] not in seen_h:
+            seen_h.add(c['shape']['h'])
+            samples.append(c)
+    samples = (samples + [c for c in cands if c not in samples])[:6]
+    for c in samples:
+        seen_l = []
+        for l in c.get('assertions', []):
+            if l not in seen_l:
+                seen_l.append(l)
+        c['assertions'] = seen_l[:10]
     if not samples:
         samples = [{'shape': s} for s in shapes[:3]]
     exhaustive = not capped and not skipped and not errors and n_unknown == 0
